@@ -17,10 +17,10 @@ Level: translation validation.  What is machine-checked here:
 
 * `well_typed_never_stuck_partial` / `well_typed_call_never_stuck_partial`: TYPE SOUNDNESS of the
   source semantics for the first-order fragment (literals, `let`, `if`, `&&`/`||`, strict operators,
-  tuples, lists, recursive top-level functions, `fail`/`todo`, `expect` and `when` over list / tuple /
-  literal patterns, `trace`, `?`): a well-typed expression of a well-typed program is never `stuck` —
+  tuples, lists, user data types with field access, recursive top-level functions, `fail`/`todo`,
+  `expect` and `when` over constructor / list / tuple / literal patterns, `trace`, `?`): a well-typed expression of a well-typed program is never `stuck` —
   for every fuel, tracing mode and well-typed arguments — and its value has its type.  `_partial`:
-  closures / higher-order application, user ADTs and `Data` casts are outside the typed fragment.
+  closures / higher-order application and `Data` casts are outside the typed fragment.
 
 Not proved: type soundness of the real checker and code generator for all programs (that part is the
 per-program validation of `c06-classify`).
@@ -73,9 +73,9 @@ theorem requested_failures_abort (P : Mini.Program) (m : Mode) (n : Nat) (env : 
 open Mini in
 /-- **type soundness, first-order fragment**: never `stuck`; a value has the expression's type -/
 theorem well_typed_never_stuck_partial (S : Sig) (P : Mini.Program) (hP : ProgTy S P) (m : Mode) (fuel : Nat)
-    (Γ : Ctx) (env : Env) (e : Expr) (t : MTy) (h : HasTy S Γ e t) (henv : envOk Γ env) :
+    (Γ : Ctx) (env : Env) (e : Expr) (t : MTy) (h : HasTy P.adts S Γ e t) (henv : envOk P.adts Γ env) :
     result (evalSrc P m fuel env e) ≠ .stuck ∧
-    ∀ v, result (evalSrc P m fuel env e) = .val v → valTy v t = true := by
+    ∀ v, result (evalSrc P m fuel env e) = .val v → valTy P.adts v t = true := by
   have hs := (sound_step S P m hP fuel).1 Γ env e t h henv
   unfold result evalSrc
   generalize (eval P m fuel env e).1 = o at hs
@@ -86,9 +86,9 @@ open Mini in
 arguments of the declared types -/
 theorem well_typed_call_never_stuck_partial (S : Sig) (P : Mini.Program) (hP : ProgTy S P) (m : Mode)
     (fuel : Nat) (f : Nat) (argtys : List MTy) (r : MTy) (args : List Val)
-    (hsig : S[f]? = some (argtys, r)) (hargs : zipTy args argtys = true) :
+    (hsig : S[f]? = some (argtys, r)) (hargs : zipTy P.adts args argtys = true) :
     result (runCall P m fuel f args) ≠ .stuck ∧
-    ∀ v, result (runCall P m fuel f args) = .val v → valTy v r = true := by
+    ∀ v, result (runCall P m fuel f args) = .val v → valTy P.adts v r = true := by
   obtain ⟨xs, body, hf, hlen, hbody⟩ := hP f argtys r hsig
   obtain ⟨env, hbp, hok⟩ := bindParams_ok xs args argtys hlen hargs
   simp only [runCall, hf, hbp]
@@ -104,10 +104,17 @@ def sumBody : Expr :=
 def factBody : Expr :=
   .ite (.bin .le (.var 0) (.lit (.int 0))) (.lit (.int 1))
     (.bin .mul (.var 0) (.call 1 [.bin .sub (.var 0) (.lit (.int 1))]))
-def prog : Mini.Program := { adts := [], fns := [([0], sumBody), ([0], factBody)], lams := [] }
-def sig : Sig := [([.list .int], .int), ([.int], .int)]
+/-- `type Shape { Circle(Int)  Rect(Int, Int) }` and
+`fn area(s: Shape) -> Int { when s is { Circle(r) -> r * r  Rect(w, h) -> w * h } }` -/
+def areaBody : Expr :=
+  .when (.var 0) [(.con 0 [.var 1], .bin .mul (.var 1) (.var 1)),
+                  (.con 1 [.var 1, .var 2], .bin .mul (.var 1) (.var 2))]
+def adts : Adts := [[[.int], [.int, .int]]]
+def prog : Mini.Program :=
+  { adts := adts, fns := [([0], sumBody), ([0], factBody), ([0], areaBody)], lams := [] }
+def sig : Sig := [([.list .int], .int), ([.int], .int), ([.adt 0], .int)]
 
-theorem sum_typed : HasTy sig [(0, .list .int)] sumBody .int := by
+theorem sum_typed : HasTy adts sig [(0, .list .int)] sumBody .int := by
   refine .when _ _ _ (.list .int) _ (.var _ _ _ rfl) ?_ ?_ ?_
   · intro c hc
     simp only [List.mem_cons, List.not_mem_nil, or_false] at hc
@@ -123,11 +130,43 @@ theorem sum_typed : HasTy sig [(0, .list .int)] sumBody .int := by
     obtain ⟨vs, rfl, _⟩ := valTy_list hv
     cases vs <;> simp [firstMatch, matchPat]
 
-theorem fact_typed : HasTy sig [(0, .int)] factBody .int :=
+theorem fact_typed : HasTy adts sig [(0, .int)] factBody .int :=
   .ite _ _ _ _ _ (.bin _ _ _ _ .int .int _ (.var _ _ _ rfl) (.lit_int _ _) .le) (.lit_int _ _)
     (.bin _ _ _ _ .int .int _ (.var _ _ _ rfl)
       (.call _ 1 _ [.int] _ rfl
         (.cons _ _ _ _ _ (.bin _ _ _ _ .int .int _ (.var _ _ _ rfl) (.lit_int _ _) .sub) (.nil _))) .mul)
+
+theorem area_typed : HasTy adts sig [(0, .adt 0)] areaBody .int := by
+  refine .when _ _ _ (.adt 0) _ (.var _ _ _ rfl) ?_ ?_ ?_
+  · intro c hc
+    simp only [List.mem_cons, List.not_mem_nil, or_false] at hc
+    rcases hc with rfl | rfl <;> rfl
+  · intro c hc Γp hp
+    simp only [List.mem_cons, List.not_mem_nil, or_false] at hc
+    rcases hc with rfl | rfl
+    · have : Γp = [(1, .int)] := by
+        have h' : patCtx adts (.con 0 [.var 1]) (.adt 0) = some [(1, .int)] := rfl
+        rw [h'] at hp; exact (Option.some.inj hp).symm
+      subst this
+      exact .bin _ _ _ _ .int .int _ (.var _ _ _ rfl) (.var _ _ _ rfl) .mul
+    · have : Γp = [(2, .int), (1, .int)] := by
+        have h' : patCtx adts (.con 1 [.var 1, .var 2]) (.adt 0) = some [(2, .int), (1, .int)] := rfl
+        rw [h'] at hp; exact (Option.some.inj hp).symm
+      subst this
+      exact .bin _ _ _ _ .int .int _ (.var _ _ _ rfl) (.var _ _ _ rfl) .mul
+  · intro v hv
+    obtain ⟨tag, vs, ctors, tys, rfl, h1, h2, hz⟩ := valTy_adt hv
+    simp only [adts, List.getElem?_cons_zero, Option.some.injEq] at h1
+    subst h1
+    match tag, vs with
+    | 0, [x] => simp [firstMatch, matchPat, matchPats]
+    | 1, [x, y] => simp [firstMatch, matchPat, matchPats]
+    | 0, [] => simp at h2; subst h2; simp [zipTy] at hz
+    | 0, _ :: _ :: _ => simp at h2; subst h2; simp [zipTy] at hz
+    | 1, [] => simp at h2; subst h2; simp [zipTy] at hz
+    | 1, [_] => simp at h2; subst h2; simp [zipTy] at hz
+    | 1, _ :: _ :: _ :: _ => simp at h2; subst h2; simp [zipTy] at hz
+    | n + 2, _ => simp at h2
 
 /-- the premises of the soundness theorem are satisfiable by a recursive program with a `when` -/
 theorem prog_typed : ProgTy sig prog := by
@@ -139,11 +178,15 @@ theorem prog_typed : ProgTy sig prog := by
   | 1 => simp only [sig, List.getElem?_cons_succ, List.getElem?_cons_zero, Option.some.injEq, Prod.mk.injEq] at h
          obtain ⟨rfl, rfl⟩ := h
          exact ⟨[0], factBody, rfl, rfl, fact_typed⟩
-  | n + 2 => simp [sig] at h
+  | 2 => simp only [sig, List.getElem?_cons_succ, List.getElem?_cons_zero, Option.some.injEq, Prod.mk.injEq] at h
+         obtain ⟨rfl, rfl⟩ := h
+         exact ⟨[0], areaBody, rfl, rfl, area_typed⟩
+  | n + 3 => simp [sig] at h
 
 /-- … and the conclusion is not about an empty set of runs: `sum([1, 2, 3]) = 6`, `fact(5) = 120` -/
 example : result (runCall prog .verbose 20 0 [.list [.int 1, .int 2, .int 3]]) = .val (.int 6) := by rfl
 example : result (runCall prog .verbose 20 1 [.int 5]) = .val (.int 120) := by rfl
+example : result (runCall prog .verbose 20 2 [.con 1 [.int 3, .int 4]]) = .val (.int 12) := by rfl
 end Example
 
 end AikenVerif.C06
